@@ -30,6 +30,11 @@ pub enum SpawnerPoint {
     BeforeFinalSpawn,
     /// Right after the final spawn, before any worker is joined.
     BeforeJoin,
+    /// Right before the worker with the given index (in spawn order) is joined.
+    BeforeJoinOne,
+    /// The calling thread unwinds out of the scope while workers might still be running
+    /// (the scope is going to wait for them).
+    ScopeUnwind,
 }
 
 /// Information about one execution of a runner driver.
@@ -111,6 +116,16 @@ pub(crate) fn spawner_point(point: SpawnerPoint, num_spawned: usize) {
     }
 }
 
+pub(crate) struct ScopeGuard;
+
+impl Drop for ScopeGuard {
+    fn drop(&mut self) {
+        if std::thread::panicking() {
+            spawner_point(SpawnerPoint::ScopeUnwind, 0);
+        }
+    }
+}
+
 struct WorkerGuard;
 
 impl Drop for WorkerGuard {
@@ -131,6 +146,32 @@ where
         }
         let _guard = WorkerGuard;
         task(chunk_size)
+    }
+}
+
+/// Iterator over join handles which reports `SpawnerPoint::BeforeJoinOne` before it yields each of them.
+pub(crate) struct HookedJoins<I> {
+    iter: I,
+    num_yielded: usize,
+}
+
+impl<I: Iterator> Iterator for HookedJoins<I> {
+    type Item = I::Item;
+
+    fn next(&mut self) -> Option<Self::Item> {
+        let next = self.iter.next();
+        if next.is_some() {
+            spawner_point(SpawnerPoint::BeforeJoinOne, self.num_yielded);
+            self.num_yielded += 1;
+        }
+        next
+    }
+}
+
+pub(crate) fn hooked_joins<C: IntoIterator>(handles: C) -> HookedJoins<C::IntoIter> {
+    HookedJoins {
+        iter: handles.into_iter(),
+        num_yielded: 0,
     }
 }
 
